@@ -9,94 +9,95 @@ import (
 	"github.com/gotd/td/internal/verif/shim/vsched"
 )
 
-func pt(w string) { vsched.Point(w) }
+// pt: scheduling point, then acquire+release on the variable (Go atomics are sequentially consistent).
+func pt(w string, p any) { vsched.PointS(w); vsched.AcqRel(p) }
 
 type Int64 struct{ v ua.Int64 }
 
 func NewInt64(x int64) *Int64                   { r := &Int64{}; r.v.Store(x); return r }
-func (i *Int64) Inc() int64                     { pt("a.add"); return i.v.Inc() }
-func (i *Int64) Dec() int64                     { pt("a.add"); return i.v.Dec() }
-func (i *Int64) Load() int64                    { pt("a.load"); return i.v.Load() }
-func (i *Int64) Store(x int64)                  { pt("a.store"); i.v.Store(x) }
-func (i *Int64) Add(x int64) int64              { pt("a.add"); return i.v.Add(x) }
-func (i *Int64) Sub(x int64) int64              { pt("a.add"); return i.v.Sub(x) }
-func (i *Int64) Swap(x int64) int64             { pt("a.swap"); return i.v.Swap(x) }
-func (i *Int64) CAS(o, n int64) bool            { pt("a.cas"); return i.v.CompareAndSwap(o, n) }
-func (i *Int64) CompareAndSwap(o, n int64) bool { pt("a.cas"); return i.v.CompareAndSwap(o, n) }
+func (i *Int64) Inc() int64                     { pt("a.add", i); return i.v.Inc() }
+func (i *Int64) Dec() int64                     { pt("a.add", i); return i.v.Dec() }
+func (i *Int64) Load() int64                    { pt("a.load", i); return i.v.Load() }
+func (i *Int64) Store(x int64)                  { pt("a.store", i); i.v.Store(x) }
+func (i *Int64) Add(x int64) int64              { pt("a.add", i); return i.v.Add(x) }
+func (i *Int64) Sub(x int64) int64              { pt("a.add", i); return i.v.Sub(x) }
+func (i *Int64) Swap(x int64) int64             { pt("a.swap", i); return i.v.Swap(x) }
+func (i *Int64) CAS(o, n int64) bool            { pt("a.cas", i); return i.v.CompareAndSwap(o, n) }
+func (i *Int64) CompareAndSwap(o, n int64) bool { pt("a.cas", i); return i.v.CompareAndSwap(o, n) }
 
 type Int32 struct{ v ua.Int32 }
 
 func NewInt32(x int32) *Int32                   { r := &Int32{}; r.v.Store(x); return r }
-func (i *Int32) Inc() int32                     { pt("a.add"); return i.v.Inc() }
-func (i *Int32) Dec() int32                     { pt("a.add"); return i.v.Dec() }
-func (i *Int32) Load() int32                    { pt("a.load"); return i.v.Load() }
-func (i *Int32) Store(x int32)                  { pt("a.store"); i.v.Store(x) }
-func (i *Int32) Add(x int32) int32              { pt("a.add"); return i.v.Add(x) }
-func (i *Int32) Swap(x int32) int32             { pt("a.swap"); return i.v.Swap(x) }
-func (i *Int32) CAS(o, n int32) bool            { pt("a.cas"); return i.v.CompareAndSwap(o, n) }
-func (i *Int32) CompareAndSwap(o, n int32) bool { pt("a.cas"); return i.v.CompareAndSwap(o, n) }
+func (i *Int32) Inc() int32                     { pt("a.add", i); return i.v.Inc() }
+func (i *Int32) Dec() int32                     { pt("a.add", i); return i.v.Dec() }
+func (i *Int32) Load() int32                    { pt("a.load", i); return i.v.Load() }
+func (i *Int32) Store(x int32)                  { pt("a.store", i); i.v.Store(x) }
+func (i *Int32) Add(x int32) int32              { pt("a.add", i); return i.v.Add(x) }
+func (i *Int32) Swap(x int32) int32             { pt("a.swap", i); return i.v.Swap(x) }
+func (i *Int32) CAS(o, n int32) bool            { pt("a.cas", i); return i.v.CompareAndSwap(o, n) }
+func (i *Int32) CompareAndSwap(o, n int32) bool { pt("a.cas", i); return i.v.CompareAndSwap(o, n) }
 
 type Uint32 struct{ v ua.Uint32 }
 
 func NewUint32(x uint32) *Uint32                  { r := &Uint32{}; r.v.Store(x); return r }
-func (i *Uint32) Inc() uint32                     { pt("a.add"); return i.v.Inc() }
-func (i *Uint32) Dec() uint32                     { pt("a.add"); return i.v.Dec() }
-func (i *Uint32) Load() uint32                    { pt("a.load"); return i.v.Load() }
-func (i *Uint32) Store(x uint32)                  { pt("a.store"); i.v.Store(x) }
-func (i *Uint32) Add(x uint32) uint32             { pt("a.add"); return i.v.Add(x) }
-func (i *Uint32) Swap(x uint32) uint32            { pt("a.swap"); return i.v.Swap(x) }
-func (i *Uint32) CAS(o, n uint32) bool            { pt("a.cas"); return i.v.CompareAndSwap(o, n) }
-func (i *Uint32) CompareAndSwap(o, n uint32) bool { pt("a.cas"); return i.v.CompareAndSwap(o, n) }
+func (i *Uint32) Inc() uint32                     { pt("a.add", i); return i.v.Inc() }
+func (i *Uint32) Dec() uint32                     { pt("a.add", i); return i.v.Dec() }
+func (i *Uint32) Load() uint32                    { pt("a.load", i); return i.v.Load() }
+func (i *Uint32) Store(x uint32)                  { pt("a.store", i); i.v.Store(x) }
+func (i *Uint32) Add(x uint32) uint32             { pt("a.add", i); return i.v.Add(x) }
+func (i *Uint32) Swap(x uint32) uint32            { pt("a.swap", i); return i.v.Swap(x) }
+func (i *Uint32) CAS(o, n uint32) bool            { pt("a.cas", i); return i.v.CompareAndSwap(o, n) }
+func (i *Uint32) CompareAndSwap(o, n uint32) bool { pt("a.cas", i); return i.v.CompareAndSwap(o, n) }
 
 type Uint64 struct{ v ua.Uint64 }
 
 func NewUint64(x uint64) *Uint64                  { r := &Uint64{}; r.v.Store(x); return r }
-func (i *Uint64) Inc() uint64                     { pt("a.add"); return i.v.Inc() }
-func (i *Uint64) Load() uint64                    { pt("a.load"); return i.v.Load() }
-func (i *Uint64) Store(x uint64)                  { pt("a.store"); i.v.Store(x) }
-func (i *Uint64) Add(x uint64) uint64             { pt("a.add"); return i.v.Add(x) }
-func (i *Uint64) CAS(o, n uint64) bool            { pt("a.cas"); return i.v.CompareAndSwap(o, n) }
-func (i *Uint64) CompareAndSwap(o, n uint64) bool { pt("a.cas"); return i.v.CompareAndSwap(o, n) }
+func (i *Uint64) Inc() uint64                     { pt("a.add", i); return i.v.Inc() }
+func (i *Uint64) Load() uint64                    { pt("a.load", i); return i.v.Load() }
+func (i *Uint64) Store(x uint64)                  { pt("a.store", i); i.v.Store(x) }
+func (i *Uint64) Add(x uint64) uint64             { pt("a.add", i); return i.v.Add(x) }
+func (i *Uint64) CAS(o, n uint64) bool            { pt("a.cas", i); return i.v.CompareAndSwap(o, n) }
+func (i *Uint64) CompareAndSwap(o, n uint64) bool { pt("a.cas", i); return i.v.CompareAndSwap(o, n) }
 
 type Bool struct{ v ua.Bool }
 
 func NewBool(b bool) *Bool                    { r := &Bool{}; r.v.Store(b); return r }
-func (b *Bool) Load() bool                    { pt("a.load"); return b.v.Load() }
-func (b *Bool) Store(x bool)                  { pt("a.store"); b.v.Store(x) }
-func (b *Bool) Swap(x bool) bool              { pt("a.swap"); return b.v.Swap(x) }
-func (b *Bool) Toggle() bool                  { pt("a.swap"); return b.v.Toggle() }
-func (b *Bool) CAS(o, n bool) bool            { pt("a.cas"); return b.v.CompareAndSwap(o, n) }
-func (b *Bool) CompareAndSwap(o, n bool) bool { pt("a.cas"); return b.v.CompareAndSwap(o, n) }
+func (b *Bool) Load() bool                    { pt("a.load", b); return b.v.Load() }
+func (b *Bool) Store(x bool)                  { pt("a.store", b); b.v.Store(x) }
+func (b *Bool) Swap(x bool) bool              { pt("a.swap", b); return b.v.Swap(x) }
+func (b *Bool) Toggle() bool                  { pt("a.swap", b); return b.v.Toggle() }
+func (b *Bool) CAS(o, n bool) bool            { pt("a.cas", b); return b.v.CompareAndSwap(o, n) }
+func (b *Bool) CompareAndSwap(o, n bool) bool { pt("a.cas", b); return b.v.CompareAndSwap(o, n) }
 
 type Duration struct{ v ua.Duration }
 
 func NewDuration(x time.Duration) *Duration { r := &Duration{}; r.v.Store(x); return r }
-func (d *Duration) Load() time.Duration     { pt("a.load"); return d.v.Load() }
-func (d *Duration) Store(x time.Duration)   { pt("a.store"); d.v.Store(x) }
+func (d *Duration) Load() time.Duration     { pt("a.load", d); return d.v.Load() }
+func (d *Duration) Store(x time.Duration)   { pt("a.store", d); d.v.Store(x) }
 
 type String struct{ v ua.String }
 
 func NewString(x string) *String { r := &String{}; r.v.Store(x); return r }
-func (d *String) Load() string   { pt("a.load"); return d.v.Load() }
-func (d *String) Store(x string) { pt("a.store"); d.v.Store(x) }
+func (d *String) Load() string   { pt("a.load", d); return d.v.Load() }
+func (d *String) Store(x string) { pt("a.store", d); d.v.Store(x) }
 
 type Error struct{ v ua.Error }
 
 func NewError(x error) *Error  { r := &Error{}; r.v.Store(x); return r }
-func (d *Error) Load() error   { pt("a.load"); return d.v.Load() }
-func (d *Error) Store(x error) { pt("a.store"); d.v.Store(x) }
+func (d *Error) Load() error   { pt("a.load", d); return d.v.Load() }
+func (d *Error) Store(x error) { pt("a.store", d); d.v.Store(x) }
 
 type Time struct{ v ua.Time }
 
-func (d *Time) Load() time.Time   { pt("a.load"); return d.v.Load() }
-func (d *Time) Store(x time.Time) { pt("a.store"); d.v.Store(x) }
+func (d *Time) Load() time.Time   { pt("a.load", d); return d.v.Load() }
+func (d *Time) Store(x time.Time) { pt("a.store", d); d.v.Store(x) }
 
 type Value = ua.Value
 
 type Pointer[T any] struct{ v ua.Pointer[T] }
 
 func NewPointer[T any](x *T) *Pointer[T]          { r := &Pointer[T]{}; r.v.Store(x); return r }
-func (p *Pointer[T]) Load() *T                    { pt("a.load"); return p.v.Load() }
-func (p *Pointer[T]) Store(x *T)                  { pt("a.store"); p.v.Store(x) }
-func (p *Pointer[T]) Swap(x *T) *T                { pt("a.swap"); return p.v.Swap(x) }
-func (p *Pointer[T]) CompareAndSwap(o, n *T) bool { pt("a.cas"); return p.v.CompareAndSwap(o, n) }
+func (p *Pointer[T]) Load() *T                    { pt("a.load", p); return p.v.Load() }
+func (p *Pointer[T]) Store(x *T)                  { pt("a.store", p); p.v.Store(x) }
+func (p *Pointer[T]) Swap(x *T) *T                { pt("a.swap", p); return p.v.Swap(x) }
+func (p *Pointer[T]) CompareAndSwap(o, n *T) bool { pt("a.cas", p); return p.v.CompareAndSwap(o, n) }
